@@ -302,6 +302,16 @@ func main() {
 			c2.Run()
 		}
 	}
+	if *profile == "lexical" {
+		// an output directory that is used twice: first with the flags that make the files longer,
+		// then plainly; the files left there are compared with the plain run into an empty directory
+		for _, fl := range [][]string{{"-typecheck", "-source-comments"}, {}} {
+			c2 := exec.Command(*goose, append(append([]string{"-out", filepath.Join(root, "outR"), "-ignore-errors"}, fl...), "./g/...")...)
+			c2.Dir = mod
+			c2.Env = goEnv()
+			c2.Run()
+		}
+	}
 	gcmd := exec.Command(*goose, "-out", out, "-ignore-errors", pat)
 	gcmd.Dir = mod
 	gcmd.Env = goEnv()
@@ -671,6 +681,12 @@ func lexicalChecks(c *caseT, root string, coqflags []string) []string {
 	bf := filepath.Join(root, "out", "gen", "b", c.name+".v")
 	if o, err := exec.Command("coqc", append(flags, bf)...).CombinedOutput(); err != nil {
 		return []string{"the baseline (comment-free) package does not compile: " + string(o)}
+	}
+	plain, _ := os.ReadFile(filepath.Join(root, "out", "gen", "g", c.name+".v"))
+	reused, _ := os.ReadFile(filepath.Join(root, "outR", "gen", "g", c.name+".v"))
+	if !bytes.Equal(plain, reused) {
+		probs = append(probs, fmt.Sprintf("the file left in an output directory used before (first with -typecheck -source-comments, then plainly) differs from the plain output: %d vs %d bytes; tail: %q",
+			len(reused), len(plain), firstN(string(reused[min(len(plain), len(reused)):]), 200)))
 	}
 	for _, v := range variants {
 		flags = append(flags, "-Q", filepath.Join(root, v), "Goose"+v[3:])
